@@ -139,7 +139,7 @@ Fixpoint split_use (y : name) (p : iprog) : option (iprog * name * bool * iprog)
       end
   end.
 
-(* old = true: before 13da1a3 (no look at calls / method calls in between); nocall = true: before 0eb93cc (no look at
+(* old = true: before 13da1a3 (no look at calls / method calls in between); nocall = true: before 07a567e (no look at
    calls inside the value, which is evaluated a second time).
    For modules with exactly ONE candidate assignment (the only ones the correspondence generates):
    exactly one load of y in the module (2743-2746), none of y and the names of the value mentioned between the
@@ -163,7 +163,7 @@ Definition inl_with (old nocall : bool) (p : iprog) : iprog :=
   end.
 Definition inl := inl_with false false.
 Definition inl_before_13da1a3 := inl_with true true.
-Definition inl_before_0eb93cc := inl_with false true.
+Definition inl_before_07a567e := inl_with false true.
 
 (* ---------------------------------------------------------------- guard of the _partial theorem *)
 (* the value is made of list / tuple / sorted / list comprehension over a display or a variable that holds a list of
